@@ -30,7 +30,7 @@ static const char *d_gfname[4] = { "a1", "a8", "a8r8g8b8", "a8r8g8b8_sRGB" };
 static int d_combo_fmt(int c, int i) { static const int t[D_NCOMBO][3] = { { 0, 0, 0 }, { 1, 1, 1 }, { 2, 2, 2 }, { 1, 2, 0 }, { 0, 1, 0 }, { 3, 3, 3 }, { 1, 3, 0 } }; return t[c][i]; }
 static const char *d_comboname[D_NCOMBO] = { "a1", "a8", "a8r8g8b8", "mixed(a8,argb,a1)", "mixed(a1,a8,a1)", "a8r8g8b8_sRGB", "mixed(a8,sRGB,a1)" };
 static const int d_gsize[3][2] = { { 3, 3 }, { 5, 2 }, { 2, 4 } };
-static const int d_gorigin[3][2] = { { 0, 0 }, { 1, 2 }, { -1, 1 } };
+static const int d_gorigin[3][2] = { { 0, 0 }, { 1, 2 }, { 40001, -100000 } };       /* an origin is an int: the third glyph's lies far outside any 16-bit range (its pen position is as far the other way) */
 #define D_NCLIP 4
 static const char *d_clipname[D_NCLIP] = { "none", "rect(1,1,6,5)", "two-rects", "empty" };
 #define D_NSRC 3
